@@ -311,5 +311,77 @@ theorem addNode_spec (h : HG) (inds : List Ix) (hc : Cons h) (hnd : inds.Nodup)
   · show h.nextNode.1 + 1 = _
     rw [hc1]
 
+
+structure ContractOut (h h' : HG) (i j : Nat) (ii ij keep : List Ix) : Prop where
+  nodes : ∀ k, get? h'.nodes k =
+    if h.nextCand = k then some keep else if i = k ∨ j = k then none else get? h.nodes k
+  keepNd : keep.Nodup
+  keep : ∀ e, e ∈ keep ↔ ((e ∈ ii ∨ e ∈ ij) ∧ ((∃ k, k ≠ i ∧ k ≠ j ∧ k ∈ h.getEdge e) ∨ e ∈ h.output))
+  cons : Cons h'
+  out : h'.output = h.output
+  sd : h'.sizeDict = h.sizeDict
+  nc : h'.nextCand = h.nextCand + 1
+
+/-- **`contract(i, j)`** on consistent dictionaries: both nodes disappear, the new node gets the
+    next identifier and keeps exactly the indices of `i` or `j` that still sit on another node or
+    belong to the output. -/
+theorem contract_spec (h : HG) (i j : Nat) (ii ij : List Ix) (hc : Cons h) (hij : i ≠ j)
+    (hi : get? h.nodes i = some ii) (hj : get? h.nodes j = some ij)
+    (hfresh : has h.nodes h.nextCand = false) :
+    ∃ h' keep, h.contract i j = some (h.nextCand, h') ∧ ContractOut h h' i j ii ij keep := by
+  obtain ⟨h1, hr1, o1⟩ := removeNode_spec h i ii hc hi
+  have hj1 : get? h1.nodes j = some ij := by rw [o1.nodes j, if_neg hij]; exact hj
+  obtain ⟨h2, hr2, o2⟩ := removeNode_spec h1 j ij o1.cons hj1
+  let keep := dedup ((ii ++ ij).filter fun e => has h2.edges e || h2.output.contains e)
+  have hfresh2 : has h2.nodes h2.nextCand = false := by
+    rw [o2.nc, o1.nc]
+    unfold has
+    rw [o2.nodes, o1.nodes]
+    unfold has at hfresh
+    split
+    · rfl
+    · split
+      · rfl
+      · exact hfresh
+  obtain ⟨hid, ao⟩ := addNode_spec h2 keep o2.cons (nodup_dedup _) hfresh2
+  have hnc2 : h2.nextCand = h.nextCand := by rw [o2.nc, o1.nc]
+  refine ⟨(h2.addNode keep).2, keep, ?_, ?_⟩
+  · simp only [contract, hr1, hr2]
+    show some (h2.addNode keep) = _
+    rw [← hnc2, ← hid]
+  · have hE2 : ∀ e, h2.getEdge e = ((h.getEdge e).filter (· != i)).filter (· != j) := by
+      intro e; rw [o2.edge e, o1.edge e]
+    refine ⟨?_, nodup_dedup _, ?_, ao.cons, ?_, ?_, ?_⟩
+    · intro k
+      rw [ao.nodes k, hnc2, o2.nodes k, o1.nodes k]
+      by_cases hk : h.nextCand = k
+      · simp [hk]
+      · simp only [hk, if_false]
+        by_cases hjk : j = k
+        · simp [hjk]
+        · by_cases hik : i = k
+          · simp [hik]
+          · simp [hjk, hik]
+    · intro e
+      show e ∈ dedup _ ↔ _
+      rw [mem_dedup, List.mem_filter, List.mem_append, Bool.or_eq_true, o2.cons.pres e, hE2 e, o2.out, o1.out]
+      have hne : ((h.getEdge e).filter (· != i)).filter (· != j) ≠ [] ↔
+          ∃ k, k ≠ i ∧ k ≠ j ∧ k ∈ h.getEdge e := by
+        constructor
+        · intro hne
+          obtain ⟨k, hk⟩ := List.exists_mem_of_ne_nil _ hne
+          have h1 := List.mem_filter.1 hk
+          have h2 := List.mem_filter.1 h1.1
+          exact ⟨k, by simpa using h2.2, by simpa using h1.2, h2.1⟩
+        · rintro ⟨k, h1, h2, h3⟩ hnil
+          have : k ∈ ((h.getEdge e).filter (· != i)).filter (· != j) :=
+            List.mem_filter.2 ⟨List.mem_filter.2 ⟨h3, by simpa using h1⟩, by simpa using h2⟩
+          rw [hnil] at this; cases this
+      rw [hne]
+      simp only [List.contains_iff_mem]
+    · rw [ao.out, o2.out, o1.out]
+    · rw [ao.sd, o2.sd, o1.sd]
+    · rw [ao.nc, hnc2]
+
 end HG
 end Cotengra
